@@ -59,6 +59,7 @@ COMMANDS = [
     (("scrub", "-p", "new"), 0, "new", True),
     (("scrub", "-p", "100"), 11 * DAY, "all-aged", True),
     (("scrub", "-p", "50", "-o", "0"), 0, "half", True),
+    (("scrub", "-p", "100", "-o", "0"), 0, "all", True),        # the whole array whatever its age
     (("scrub", "-p", "bad"), 0, "bad-after-mark", True),
 ]
 SHAPES_DATA = ["flip0", "fliplast", "whole", "zero"]
@@ -195,7 +196,7 @@ def job(j):
                 covered.add(p)
         verified_all = {p for p in range(len(info)) if info[p] is not None and
                         (c2.info[p] != info[p])}
-        for msg in scrubplan.check_percentage(info, verified_all, 50, L.time, 0, c.blockmax):
+        for msg in scrubplan.check_percentage(info, verified_all, 50, L.time, 0, c.blockmax, lower_bound=False):
             viols.append(dict(kind="plan-violated", where=where, msg=msg))
     exp_data = {x for x in want_data if x[0] in covered}
     exp_par = {x for x in want_par if x[0] in covered} if covers_parity else set()
